@@ -21,6 +21,9 @@ THEOREMS = [
     "Baize.Multipart.chunking_independent",
     "Baize.Multipart.parseStream_items",
     "Baize.Multipart.formAccessor_exact",
+    "Baize.Multipart.rendered_part_ok",
+    "Baize.Multipart.itemOf_rendered",
+    "Baize.Multipart.headerEvent_rendered",
 ]
 MANIFEST = {
     "technique": "Lean 4 proof (invariant over all chunk partitions) + differential correspondence of the Lean "
@@ -54,10 +57,11 @@ ASSUMPTIONS = [
     "parameter and header names are ASCII where the code lower-cases them (str.lower on other text is not modelled)",
     "charset is utf-8, latin-1 or an unknown name (other codecs are not modelled)",
 ]
-PARTIAL = ("the meaning of a part's header block (Content-Disposition / parameter parsing, header folding) enters the "
-           "theorems as the hypothesis `headerEvent cs p.hdr = p.ev` of PartOK: it is discharged by kernel evaluation "
-           "for concrete header blocks (examples in Props/C01.lean) and tied to parse_header/_parse_headers by the "
-           "correspondence; a general theorem for all names and filenames is not proved")
+PARTIAL = ("the header layer (rendered_part_ok: an encoder's Content-Disposition line with any name/filename free of "
+           "quote, backslash and line break, plus further header lines, denotes exactly that name, filename and "
+           "header list) is proved at byte level for the latin-1 charset; for utf-8 the decoded text of each header "
+           "line enters headerEvent_rendered as a hypothesis (codec as parameter; utf-8 decoding is tied by the "
+           "correspondence only)")
 
 
 def _expect(line):
